@@ -142,14 +142,18 @@ class Currency:
                 f"expected a string argument, found {currency_code}", token=None
             )
 
-        return numbers.format_currency(
-            _parse_decimal(left, input_locale),
-            currency_code,
-            format=_format,
-            locale=locale,
-            group_separator=group_separator,
-            currency_digits=self.currency_digits,
-        )
+        try:
+            return numbers.format_currency(
+                _parse_decimal(left, input_locale),
+                currency_code,
+                format=_format,
+                locale=locale,
+                group_separator=group_separator,
+                currency_digits=self.currency_digits,
+            )
+        except ArithmeticError as err:
+            # For example, a number with too many digits to quantize.
+            raise LiquidValueError(str(err), token=None) from err
 
 
 def _parse_decimal(val: object, locale: Union[str, Locale]) -> Decimal:
@@ -258,12 +262,16 @@ class DateTime:
             default=self.default_input_timezone,
         )
 
-        return dates.format_datetime(
-            _parse_datetime(left, input_tzinfo),
-            format=_format,
-            locale=locale,
-            tzinfo=tzinfo,
-        )
+        try:
+            return dates.format_datetime(
+                _parse_datetime(left, input_tzinfo),
+                format=_format,
+                locale=locale,
+                tzinfo=tzinfo,
+            )
+        except (OverflowError, ValueError, OSError) as err:
+            # For example, a timestamp that is infinite, NaN or out of range.
+            raise LiquidValueError(str(err), token=None) from err
 
     def _resolve_timezone(
         self,
@@ -415,13 +423,17 @@ class Number:
                 f"expected a string argument, found {_format}", token=None
             )
 
-        return numbers.format_decimal(  # type: ignore
-            _parse_decimal(left, input_locale),
-            format=_format,
-            locale=locale,
-            group_separator=group_separator,
-            decimal_quantization=decimal_quantization,
-        )
+        try:
+            return numbers.format_decimal(  # type: ignore
+                _parse_decimal(left, input_locale),
+                format=_format,
+                locale=locale,
+                group_separator=group_separator,
+                decimal_quantization=decimal_quantization,
+            )
+        except ArithmeticError as err:
+            # For example, a number with too many digits to quantize.
+            raise LiquidValueError(str(err), token=None) from err
 
 
 def unit_filter(_filter: FilterT) -> FilterT:
@@ -433,7 +445,9 @@ def unit_filter(_filter: FilterT) -> FilterT:
             return _filter(val, *args, **kwargs)
         except TypeError as err:
             raise LiquidTypeError(err, token=None) from err
-        except units.UnknownUnitError as err:
+        except (units.UnknownUnitError, ArithmeticError, ValueError) as err:
+            # ArithmeticError and ValueError cover numbers that are infinite, NaN
+            # or have too many digits to quantize.
             raise LiquidValueError(err, token=None) from err
 
     return wrapper
